@@ -849,9 +849,8 @@ class PDFDocument:
         if stream.get("Type") is not LITERAL_OBJSTM:
             if settings.STRICT:
                 raise PDFSyntaxError("Not a stream object: %r" % stream)
-        try:
-            n = cast(int, stream["N"])
-        except KeyError:
+        n = resolve1(stream.get("N"))
+        if not isinstance(n, int) or isinstance(n, bool) or n < 0:
             if settings.STRICT:
                 raise PDFSyntaxError("N is not defined: %r" % stream)
             n = 0
